@@ -859,7 +859,8 @@ ORACLES = [('structural', lambda rep, ctx: oracle_structural(rep, ctx.quick())),
            ('fixed_witnesses', lambda rep, ctx: oracle_fixed_witnesses(rep)),
            ('batch_lost', lambda rep, ctx: oracle_batch_lost(rep)),
            ('empty_trailing', lambda rep, ctx: oracle_empty_trailing(rep)),
-           ('kde_dtype', lambda rep, ctx: oracle_kde_dtype(rep))]
+           ('kde_dtype', lambda rep, ctx: oracle_kde_dtype(rep)),
+           ('logabsdet_scaled', lambda rep, ctx: logabsdet_scaled(ctx, rep))]
 
 
 def _collect(ctx, names=None):
